@@ -2,17 +2,26 @@
 import os, subprocess, json, sys, fcntl, time
 ROOT = os.path.dirname(os.path.dirname(os.path.abspath(__file__)))
 TARGET = os.path.join(ROOT, '.cache', 'replay-target')
+MANIFEST = os.path.join(ROOT, 'replay', 'Cargo.toml')
+# development aid: VERIF_REPO / VERIF_CACHE point the whole pipeline (MIR dump and replay) at another checkout
+if os.environ.get('VERIF_REPO') and os.environ.get('VERIF_CACHE'):
+    import shutil
+    _alt = os.path.join(os.environ['VERIF_CACHE'], 'replay')
+    shutil.rmtree(_alt, ignore_errors=True); shutil.copytree(os.path.join(ROOT, 'replay'), _alt, ignore=shutil.ignore_patterns('target'))
+    _t = open(os.path.join(_alt, 'Cargo.toml')).read().replace('path = "/repo"', 'path = "%s"' % os.environ['VERIF_REPO'])
+    open(os.path.join(_alt, 'Cargo.toml'), 'w').write(_t)
+    MANIFEST = os.path.join(_alt, 'Cargo.toml'); TARGET = os.path.join(os.environ['VERIF_CACHE'], 'replay-target')
 _built = {}
 
 def build(profile):
     if profile in _built: return _built[profile]
-    os.makedirs(os.path.join(ROOT, '.cache'), exist_ok=True)
-    lock = open(os.path.join(ROOT, '.cache', '.replay.lock'), 'w')
+    os.makedirs(os.path.dirname(TARGET), exist_ok=True)
+    lock = open(os.path.join(os.path.dirname(TARGET), '.replay.lock'), 'w')
     fcntl.flock(lock, fcntl.LOCK_EX)
     try:
         env = dict(os.environ); env['CARGO_NET_OFFLINE'] = 'true'
         env['RUSTFLAGS'] = '--cfg anything_verif'
-        cmd = ['cargo', 'build', '--offline', '--quiet', '--manifest-path', os.path.join(ROOT, 'replay', 'Cargo.toml'), '--target-dir', TARGET]
+        cmd = ['cargo', 'build', '--offline', '--quiet', '--manifest-path', MANIFEST, '--target-dir', TARGET]
         if profile == 'release': cmd.append('--release')
         t = time.time()
         r = subprocess.run(cmd, env=env, stdout=subprocess.PIPE, stderr=subprocess.PIPE)
@@ -28,8 +37,8 @@ def run_profile(cases, profile, env_extra=None, timeout=600):
     exe = build(profile)
     data = '\n'.join(json.dumps(c, ensure_ascii=False) for c in cases) + '\n'
     env = dict(os.environ)
-    env['XDG_DATA_HOME'] = os.path.join(ROOT, '.cache', 'xdg-data')
-    env['HOME'] = os.path.join(ROOT, '.cache', 'home')
+    env['XDG_DATA_HOME'] = os.path.join(os.path.dirname(TARGET), 'xdg-data')
+    env['HOME'] = os.path.join(os.path.dirname(TARGET), 'home')
     if env_extra: env.update(env_extra)
     outs = []
     # a hard crash (abort, stack overflow) kills the process: restart after the offending case
